@@ -84,7 +84,7 @@ class ConstEval(object):
                 return self.name(self.repo.modules[base[1]], n.attr)
             if base and base[0] == "class":
                 ci = self.repo.classes.get(base[1])
-                if ci and n.attr in ci.attrs and ci.attrs[n.attr][0] == "expr":
+                if ci and n.attr in ci.attrs and ci.attrs[n.attr][0] in ("expr", "unpack"):
                     return self._classattr(ci, n.attr)
             raise NotConst("attribute %s" % ast.dump(n))
         if isinstance(n, ast.BinOp):
